@@ -283,36 +283,6 @@ fn table() -> Vec<W> {
           "MapAdditionalFlags::MAP_LOCKED" => (MapRequiredFlag::MapShared, MemoryProtection::PROT_READ, MapAdditionalFlags::MAP_LOCKED)],
          |a| v(unsafe { rusl::unistd::mmap(None, NonZeroUsize::new(8192).unwrap(), a.1, a.0, a.2, None, 0) }.map(|x| x as u64)));
     use rusl::unistd::Whence;
-    var!("unistd.lseek", "unistd/seek.rs:lseek", "lseek", "i64",
-         ["Whence::SET" => Whence::SET, "Whence::CUR" => Whence::CUR, "Whence::END" => Whence::END, "Whence::DATA" => Whence::DATA, "Whence::HOLE" => Whence::HOLE],
-         |wh| v(rusl::unistd::lseek(fd, -1, wh).map(|x| x as u64)));
-    var!("time.clock_get_time", "time/clock_get_time.rs:clock_get_time", "clock_gettime", "unit",
-         ["CLOCK_REALTIME" => ClockId::CLOCK_REALTIME, "CLOCK_PROCESS_CPUTIME_ID" => ClockId::CLOCK_PROCESS_CPUTIME_ID,
-          "CLOCK_THREAD_CPUTIME_ID" => ClockId::CLOCK_THREAD_CPUTIME_ID, "CLOCK_MONOTONIC_RAW" => ClockId::CLOCK_MONOTONIC_RAW,
-          "CLOCK_REALTIME_COARSE" => ClockId::CLOCK_REALTIME_COARSE, "CLOCK_MONOTONIC_COARSE" => ClockId::CLOCK_MONOTONIC_COARSE,
-          "CLOCK_BOOTTIME" => ClockId::CLOCK_BOOTTIME, "CLOCK_REALTIME_ALARM" => ClockId::CLOCK_REALTIME_ALARM,
-          "CLOCK_BOOTTIME_ALARM" => ClockId::CLOCK_BOOTTIME_ALARM, "CLOCK_TAI" => ClockId::CLOCK_TAI],
-         |c| u(rusl::time::clock_get_time(c)));
-    var!("process.wait_pid", "process/wait.rs:wait_pid", "wait4", "i32",
-         ["WaitPidFlags::WUNTRACED" => WaitPidFlags::WUNTRACED, "WaitPidFlags::WCONTINUED" => WaitPidFlags::WCONTINUED, "pid=0" => WaitPidFlags::empty()],
-         |f| v(rusl::process::wait_pid(0, f).map(|r| s32(r.pid))));
-    var!("unistd.open", "unistd/open.rs:open", "openat", "i32",
-         ["O_WRONLY" => OpenFlags::O_WRONLY, "O_RDWR" => OpenFlags::O_RDWR, "O_APPEND" => OpenFlags::O_APPEND, "O_ASYNC" => OpenFlags::O_ASYNC,
-          "O_CLOEXEC" => OpenFlags::O_CLOEXEC, "O_CREAT" => OpenFlags::O_CREAT, "O_DIRECT" => OpenFlags::O_DIRECT, "O_DIRECTORY" => OpenFlags::O_DIRECTORY,
-          "O_DSYNC" => OpenFlags::O_DSYNC, "O_EXCL" => OpenFlags::O_EXCL, "O_LARGEFILE" => OpenFlags::O_LARGEFILE, "O_NOATIME" => OpenFlags::O_NOATIME,
-          "O_NOCTTY" => OpenFlags::O_NOCTTY, "O_NOFOLLOW" => OpenFlags::O_NOFOLLOW, "O_NONBLOCK" => OpenFlags::O_NONBLOCK, "O_PATH" => OpenFlags::O_PATH,
-          "O_SYNC" => OpenFlags::O_SYNC, "O_TMPFILE" => OpenFlags::O_TMPFILE, "O_TRUNC" => OpenFlags::O_TRUNC,
-          "O_CREAT|O_EXCL|O_WRONLY" => OpenFlags::O_CREAT | OpenFlags::O_EXCL | OpenFlags::O_WRONLY],
-         |f| v(rusl::unistd::open(path, f).map(|x| s32(x.value()))));
-    var!("unistd.open_mode", "unistd/open.rs:open_mode", "openat", "i32",
-         ["S_IRWXU" => Mode::S_IRWXU, "S_IRUSR|S_IWUSR" => Mode::S_IRUSR | Mode::S_IWUSR, "S_ISUID" => Mode::S_ISUID, "S_IRWXO" => Mode::S_IRWXO],
-         |m| v(rusl::unistd::open_mode(path, OpenFlags::O_CREAT | OpenFlags::O_WRONLY, m).map(|x| s32(x.value()))));
-    var!("futex.futex_wait", "futex.rs:futex_wait", "futex", "unit",
-         ["FutexFlags::empty" => FutexFlags::empty(), "FutexFlags::CLOCK_REALTIME" => FutexFlags::CLOCK_REALTIME],
-         |f| u(rusl::futex::futex_wait(fut, 0, f, None)));
-    var!("unistd.rename_flags", "unistd/rename.rs:rename_flags", "renameat2", "unit",
-         ["RENAME_EXCHANGE" => RenameFlags::RENAME_EXCHANGE, "RENAME_NOREPLACE" => RenameFlags::RENAME_NOREPLACE, "RENAME_WHITEOUT" => RenameFlags::RENAME_WHITEOUT],
-         |f| u(rusl::unistd::rename_flags(path, path2, f)));
     var!("network.socket", "network/socket.rs:socket", "socket", "i32",
          ["AF_INET+SOCK_STREAM" => (AddressFamily::AF_INET, SocketType::SOCK_STREAM, SocketFlags::SOCK_CLOEXEC, 6),
           "AF_INET6+SOCK_DGRAM" => (AddressFamily::AF_INET6, SocketType::SOCK_DGRAM, SocketFlags::SOCK_NONBLOCK, 17),
@@ -321,34 +291,53 @@ fn table() -> Vec<W> {
           "AF_UNIX+SOCK_SEQPACKET" => (AddressFamily::AF_UNIX, SocketType::SOCK_SEQPACKET, SocketFlags::SOCK_CLOEXEC | SocketFlags::SOCK_NONBLOCK, 0),
           "AF_UNSPEC+SOCK_RDM" => (AddressFamily::AF_UNSPEC, SocketType::SOCK_RDM, SocketFlags::empty(), -1)],
          |a| v(rusl::network::socket(a.0, SocketOptions::new(a.1, a.2), a.3).map(|x| s32(x.value()))));
-    var!("network.accept_unix", "network/accept.rs:accept_unix", "accept4", "i32",
-         ["SOCK_CLOEXEC" => SocketFlags::SOCK_CLOEXEC, "SOCK_NONBLOCK" => SocketFlags::SOCK_NONBLOCK],
-         |f| v(rusl::network::accept_unix(fd, f).map(|(x, _)| s32(x.value()))));
-    var!("network.accept_inet", "network/accept.rs:accept_inet", "accept4", "i32",
-         ["SOCK_CLOEXEC|SOCK_NONBLOCK" => SocketFlags::SOCK_CLOEXEC | SocketFlags::SOCK_NONBLOCK],
-         |f| v(rusl::network::accept_inet(fd, f).map(|(x, _)| s32(x.value()))));
     var!("ioctl.ioctl", "ioctl.rs:ioctl", "ioctl", "usize",
          ["request=0" => 0usize, "TIOCGWINSZ" => 0x5413usize, "FIONREAD" => 0x541busize, "FIONBIO" => 0x5421usize, "request=max" => usize::MAX],
          |r| v(unsafe { rusl::ioctl::ioctl(fd, r, 0) }.map(|x| x as u64)));
-    var!("io_uring.io_uring_enter", "io_uring.rs:io_uring_enter", "io_uring_enter", "usize",
-         ["IORING_ENTER_GETEVENTS" => IoUringEnterFlags::IORING_ENTER_GETEVENTS, "IORING_ENTER_SQ_WAKEUP" => IoUringEnterFlags::IORING_ENTER_SQ_WAKEUP,
-          "IORING_ENTER_SQ_WAIT" => IoUringEnterFlags::IORING_ENTER_SQ_WAIT],
-         |f| v(rusl::io_uring::io_uring_enter(fd, 1, 1, f).map(|x| x as u64)));
-    var!("unistd.unshare", "unistd/unshare.rs:unshare", "unshare", "unit",
-         ["CLONE_FS" => CloneFlags::CLONE_FS, "CLONE_FILES" => CloneFlags::CLONE_FILES, "CLONE_NEWNS" => CloneFlags::CLONE_NEWNS, "CLONE_NEWUSER" => CloneFlags::CLONE_NEWUSER],
-         |f| u(rusl::unistd::unshare(f)));
     var!("unistd.mount.nodata", "unistd/mount.rs:mount", "mount", "unit",
          ["EXT4+MS_RDONLY" => (FilesystemType::EXT4, Mountflags::MS_RDONLY), "PROC+MS_NOSUID" => (FilesystemType::PROC, Mountflags::MS_NOSUID),
           "SYSFS+MS_BIND" => (FilesystemType::SYSFS, Mountflags::MS_BIND), "DEVTMPFS+MS_REMOUNT" => (FilesystemType::DEVTMPFS, Mountflags::MS_REMOUNT),
           "VFAT+MS_NOEXEC" => (FilesystemType::VFAT, Mountflags::MS_NOEXEC)],
          |a| u(rusl::unistd::mount(path, path2, a.0, a.1, None)));
-    var!("unistd.fcntl_set_file_status", "unistd/fcntl.rs:fcntl_set_file_status", "fcntl", "unit",
-         ["O_NONBLOCK" => OpenFlags::O_NONBLOCK, "O_APPEND" => OpenFlags::O_APPEND, "empty" => OpenFlags::empty()],
-         |f| u(rusl::unistd::fcntl_set_file_status(fd, f)));
     var!("select.epoll_wait", "select/epoll.rs:epoll_wait", "epoll_pwait", "usize",
          ["timeout=-1" => -1i32, "timeout=5" => 5i32, "timeout=max" => i32::MAX],
          |to| v(rusl::select::epoll_wait(fd, &mut [EpollEvent::new(0, EpollEventMask::EPOLLIN); 1], to).map(|x| x as u64)));
     // (dup3 with cloexec=false is what dup2 does: covered by unistd.dup2 with its EBUSY retry discipline)
+    let zts2: &'static TimeSpec = leak(TimeSpec::new_zeroed());
+    // every constant of every flag-typed parameter (generated from the source)
+    include!("sysw_flags.inc");
+    // pipe2 accepts three flags (successes run the real call)
+    for (name, f) in [("OpenFlags::O_NONBLOCK", OpenFlags::O_NONBLOCK), ("OpenFlags::O_DIRECT", OpenFlags::O_DIRECT)] {
+        t.push(W { id: format!("unistd.pipe2[{name}]"), func: "unistd/pipe.rs:pipe2", nr: "pipe2", kind: "unit", retry: "none", pass: true,
+                   variant: name.to_string(), call: Box::new(move || {
+            let r = rusl::unistd::pipe2(f);
+            if let Ok(p) = &r {
+                unsafe { libc::close(p.in_pipe.value()); libc::close(p.out_pipe.value()); }
+            }
+            u(r)
+        }) });
+    }
+    // ALIASED arguments: both descriptors / paths / buffers the same object - the call is still issued
+    t.push(W { id: "unistd.dup2[old==new]".to_string(), func: "unistd/dup.rs:dup2", nr: "dup3", kind: "unit", retry: "ebusy", pass: false,
+               variant: "alias:old==new".to_string(), call: Box::new(move || u(rusl::unistd::dup2(fd, fd))) });
+    t.push(W { id: "unistd.dup3[old==new]".to_string(), func: "unistd/dup.rs:dup3", nr: "dup3", kind: "unit", retry: "ebusy", pass: false,
+               variant: "alias:old==new".to_string(), call: Box::new(move || u(rusl::unistd::dup3(fd, fd, true))) });
+    t.push(W { id: "unistd.dup2[new==0]".to_string(), func: "unistd/dup.rs:dup2", nr: "dup3", kind: "unit", retry: "ebusy", pass: false,
+               variant: "alias:new=stdin".to_string(), call: Box::new(move || u(rusl::unistd::dup2(Fd::try_new(0).unwrap(), Fd::try_new(0).unwrap()))) });
+    var!("unistd.rename", "unistd/rename.rs:rename", "renameat2", "unit", ["alias:old==new" => 0], |_z| u(rusl::unistd::rename(path, path)));
+    var!("unistd.rename_flags", "unistd/rename.rs:rename_flags", "renameat2", "unit", ["alias:old==new" => 0], |_z| u(rusl::unistd::rename_flags(path, path, RenameFlags::RENAME_EXCHANGE)));
+    var!("unistd.rename_at", "unistd/rename.rs:rename_at", "renameat2", "unit", ["alias:same dir and path" => 0], |_z| u(rusl::unistd::rename_at(fd, path, fd, path)));
+    var!("unistd.rename_at2", "unistd/rename.rs:rename_at2", "renameat2", "unit", ["alias:same dir and path" => 0], |_z| u(rusl::unistd::rename_at2(fd, path, fd, path, RenameFlags::empty())));
+    var!("unistd.copy_file_range", "unistd/copy_file_range.rs:copy_file_range", "copy_file_range", "usize", ["alias:src==dest,same offset" => 0u64, "alias:src==dest,overlap" => 8u64],
+         |o| v(rusl::unistd::copy_file_range(fd, 0, fd, o, 16).map(|x| x as u64)));
+    var!("select.epoll_ctl", "select/epoll.rs:epoll_ctl", "epoll_ctl", "unit", ["alias:epfd==fd" => 0], |_z| u(rusl::select::epoll_ctl(fd, EpollOp::Add, fd, eev)));
+    var!("select.epoll_del", "select/epoll.rs:epoll_del", "epoll_ctl", "unit", ["alias:epfd==fd" => 0], |_z| u(rusl::select::epoll_del(fd, fd)));
+    var!("unistd.mount.nodata", "unistd/mount.rs:mount", "mount", "unit", ["alias:source==target" => 0], |_z| u(rusl::unistd::mount(path, path, FilesystemType::TMPFS, Mountflags::MS_BIND, None)));
+    var!("unistd.mount.data", "unistd/mount.rs:mount", "mount", "unit", ["alias:source==target==data" => 0], |_z| u(rusl::unistd::mount(path, path, FilesystemType::TMPFS, Mountflags::MS_BIND, Some(path))));
+    var!("time.nanosleep", "time/sleep.rs:nanosleep", "nanosleep", "unit", ["alias:rem==req" => 0], |_z| u(rusl::time::nanosleep(zts2, Some(core::ptr::from_ref::<TimeSpec>(zts2).cast_mut()))));
+    var!("unistd.open_at", "unistd/open.rs:open_at", "openat", "i32", ["alias:dir==stdin" => 0], |_z| v(rusl::unistd::open_at(Fd::try_new(0).unwrap(), path, rflags).map(|x| s32(x.value()))));
+    var!("unistd.setpgid", "unistd/setpgid.rs:setpgid", "setpgid", "unit", ["alias:pid==pgid" => 4242], |x| u(rusl::unistd::setpgid(x, x)));
+    var!("process.wait_pid", "process/wait.rs:wait_pid", "wait4", "i32", ["pid=0" => 0, "pid=min" => i32::MIN], |x| v(rusl::process::wait_pid(x, WaitPidFlags::WNOHANG).map(|r| s32(r.pid))));
     // degenerate but legal: nothing to transfer, empty names, zero counts - the call is still issued once
     let empty: &'static UnixStr = UnixStr::EMPTY;
     var!("unistd.read", "unistd/read.rs:read", "read", "usize", ["buf=empty" => 0], |_z| v(rusl::unistd::read(fd, &mut []).map(|x| x as u64)));
@@ -367,7 +356,7 @@ fn table() -> Vec<W> {
     var!("futex.futex_wake", "futex.rs:futex_wake", "futex", "usize", ["waiters=0" => 0i32, "waiters=max" => i32::MAX, "waiters=-1" => -1i32], |n| v(rusl::futex::futex_wake(fut, n).map(|x| x as u64)));
     let zts: &'static TimeSpec = leak(TimeSpec::new_zeroed());
     var!("time.nanosleep", "time/sleep.rs:nanosleep", "nanosleep", "unit", ["duration=0" => 0], |_z| u(rusl::time::nanosleep(zts, None)));
-    var!("network.listen", "network/listen.rs:listen", "listen", "unit", ["backlog=0" => Fd::try_new(0).unwrap(), "backlog=max" => Fd::MAX], |b| u(rusl::network::listen(fd, b)));
+    var!("network.listen", "network/listen.rs:listen", "listen", "unit", ["NonNegativeI32::ZERO" => Fd::ZERO, "NonNegativeI32::MAX" => Fd::MAX], |b| u(rusl::network::listen(fd, b)));
     var!("unistd.open", "unistd/open.rs:open", "openat", "i32", ["path=empty" => empty], |p| v(rusl::unistd::open(p, rflags).map(|x| s32(x.value()))));
     var!("unistd.unlink", "unistd/unlink.rs:unlink", "unlinkat", "unit", ["path=empty" => empty], |p| u(rusl::unistd::unlink(p)));
     var!("unistd.stat", "unistd/stat.rs:stat", "newfstatat", "unit", ["path=empty" => empty], |p| u(rusl::unistd::stat(p)));
@@ -377,7 +366,6 @@ fn table() -> Vec<W> {
     var!("unistd.lseek", "unistd/seek.rs:lseek", "lseek", "i64", ["offset=min" => i64::MIN, "offset=max" => i64::MAX], |o| v(rusl::unistd::lseek(fd, o, Whence::SET).map(|x| x as u64)));
     var!("unistd.setuid", "unistd/setuid.rs:setuid", "setuid", "unit", ["uid=max" => u32::MAX], |x| u(rusl::unistd::setuid(x)));
     var!("unistd.setpgid", "unistd/setpgid.rs:setpgid", "setpgid", "unit", ["pid=-1" => -1], |x| u(rusl::unistd::setpgid(x, x)));
-    var!("process.wait_pid", "process/wait.rs:wait_pid", "wait4", "i32", ["pid=min" => i32::MIN], |x| v(rusl::process::wait_pid(x, WaitPidFlags::WNOHANG).map(|r| s32(r.pid))));
     t
 }
 
